@@ -128,6 +128,105 @@ let judge_prune id (l : q list list) (d : int) (r : cursor) : bool * string =
     ignore mr0;
     (b < List.length mk0, Printf.sprintf "prune.d%d%s" d (if !ill then ".ill" else ""))
 
+(* ---------- findVerticesNaive ---------- *)
+(* exact Gauss-Jordan over Q (unverified; its answers are only used as the oracle of the model and
+   every implementation point is checked against the equations directly).  None = singular. *)
+let solve_exact (a : q list list) (b : q list) : q list option =
+  let n = List.length b in
+  let m = Array.of_list (List.map2 (fun r y -> Array.of_list (r @ [y])) a b) in
+  if Array.length m <> n || Array.exists (fun r -> Array.length r <> n + 1) m then None else begin
+    let ok = ref true in
+    for col = 0 to n - 1 do
+      if !ok then begin
+        let piv = ref (-1) in
+        for r = col to n - 1 do if !piv < 0 && not (q_eq m.(r).(col) q_zero) then piv := r done;
+        if !piv < 0 then ok := false else begin
+          let t = m.(col) in m.(col) <- m.(!piv); m.(!piv) <- t;
+          let pv = m.(col).(col) in
+          for k = 0 to n do m.(col).(k) <- vio_qred (vio_qdiv m.(col).(k) pv) done;
+          for r = 0 to n - 1 do
+            if r <> col && not (q_eq m.(r).(col) q_zero) then begin
+              let f = m.(r).(col) in
+              for k = 0 to n do m.(r).(k) <- vio_qred (q_sub m.(r).(k) (q_mul f m.(col).(k))) done
+            end
+          done
+        end
+      end
+    done;
+    if !ok then Some (List.init n (fun i -> m.(i).(n))) else None
+  end
+
+type fv_status = Yes | No | Maybe | Wild
+
+let judge_fv id (pairs : (q list * q list list) list) (d : int) (r : cursor) (site : string) : bool * string =
+  let cnt = next_int r in let _ = next_int r in
+  let impl = List.init cnt (fun _ -> let p = read_vec r d in let v = next_q r in (p, v)) in
+  let tiny = q_of_ints 1 1000000000 in
+  let maxabs = List.fold_left (fun m (nv, al) -> List.fold_left (fun m v -> List.fold_left (fun m x -> q_max m (q_abs x)) m v) m (nv :: al)) q_one pairs in
+  let tol = q_mul (q_of_ints 1 100000000) maxabs in
+  let near a b = q_le (q_abs (q_sub a b)) tol in
+  (* C: the model's enumeration with the exact solve as oracle *)
+  let singular = ref false in
+  let expected = List.concat (List.map (fun (nv, al) ->
+      let n = List.length al in
+      List.map (fun ids ->
+          let a = fv_matrix (nat_of_int d) nv al ids and b = fv_rhs ids in
+          match solve_exact a b with
+          | None -> singular := true; (Wild, ([], q_zero))   (* singular: consistent ones may yield any solution *)
+          | Some res ->
+            let (p, v) = fv_clean (nat_of_int d) (nat_of_int n) ids res in
+            let limited j = List.exists (fun idx -> nat_i idx = n + j) ids in
+            let mx = List.fold_left q_max (List.hd p) p in
+            let fragile =
+              List.exists (fun x -> x) (List.mapi (fun j x -> not (limited j) && q_lt (q_abs x) tiny) p)
+              || q_lt (q_abs (q_sub mx q_one)) tiny
+              || q_lt (q_abs (q_sub mx (q_sub q_one (q_of_ints 1 1000000)))) tiny in
+            ((if fragile then Maybe else if fv_accept p then Yes else No), (p, v)))
+        (fv_subsets (nat_of_int d) (nat_of_int n))) pairs) in
+  (* O: every returned point is a simplex point, not a corner, and satisfies the equations of SOME
+     selected subset: new plane value = each selected alpha's value = reported value, limited
+     coordinates exactly 0, coordinates sum to 1 *)
+  (* a singular (e.g. parallel planes) system is the signature of the known least-squares defect *)
+  let cl name = if !singular then "vertices_unsolved_system" else name in
+  let near a b = q_le (q_abs (q_sub a b)) (q_mul (q_of_ints 2 1000000) maxabs) in
+  List.iter (fun (p, v) ->
+      if List.exists (fun x -> q_lt x q_zero) p then oracle_fail (cl "vertices_in_simplex") site ("negative coordinate in " ^ str_vec p);
+      if not (near (List.fold_left q_add q_zero p) q_one) then oracle_fail (cl "vertices_in_simplex") site ("coordinates do not sum to 1: " ^ str_vec p);
+      if List.exists (fun x -> not (q_lt x (q_sub q_one (q_of_ints 1 1000000)))) p then oracle_fail "vertices_not_corner" site ("corner returned: " ^ str_vec p);
+      let explained = List.exists (fun (nv, al) ->
+          let n = List.length al in
+          near (dot nv p) v &&
+          List.exists (fun ids ->
+              List.for_all (fun idx -> let i = nat_i idx in
+                             if i < n then near (dot (List.nth al i) p) v
+                             else q_eq (List.nth p (i - n)) q_zero) ids)
+            (fv_subsets (nat_of_int d) (nat_of_int n))) pairs in
+      if not explained then oracle_fail (cl "vertices_satisfy_equalities") site ("point " ^ str_vec p ^ " value " ^ string_of_q v ^ " satisfies the equalities of no selected subset")) impl;
+  begin
+    (* the model function itself, run with the same oracle, returns exactly the accepted entries *)
+    let model_out = List.concat (List.map (fun (nv, al) ->
+        findVerticesNaive (fun a b -> match solve_exact a b with Some x -> x | None -> []) [nv] al) pairs) in
+    let accepted = List.filter (fun (_, (p, _)) -> p <> [] && fv_accept p) expected in
+    if not !singular && List.length model_out <> List.length accepted then disagree "findVerticesNaive_model" site "model function and enumeration differ";
+    let close_pt (p, v) (p', v') = List.length p = List.length p' && List.for_all2 (fun x y -> q_le (q_abs (q_sub x y)) tol) p p' && q_le (q_abs (q_sub v v')) tol in
+    (* alignment with backtracking on the fragile (Maybe) entries *)
+    let rec align exp imp = match exp, imp with
+      | [], [] -> true
+      | [], _ :: _ -> false
+      | (Yes, e) :: et, i :: it -> close_pt e i && align et it
+      | (Yes, _) :: _, [] -> false
+      | (No, _) :: et, _ -> align et imp
+      | (Maybe, e) :: et, i :: it -> (close_pt e i && align et it) || align et imp
+      | (Maybe, _) :: et, [] -> align et []
+      | (Wild, _) :: et, _ :: it -> align et it || align et imp
+      | (Wild, _) :: et, [] -> align et [] in
+    if not (align expected impl) then
+      disagree "findVerticesNaive" site (Printf.sprintf "returned vertices (%d) do not match the model's enumeration (%d certain): impl %s"
+                                           (List.length impl) (List.length (List.filter (fun (st, _) -> st = Yes) expected))
+                                           (String.concat " " (List.map (fun (p, _) -> str_vec p) impl)))
+  end;
+  (cnt > 0, Printf.sprintf "%s.d%d%s" site d (if !singular then ".singular" else ""))
+
 (* ---------- judge ---------- *)
 let judge id (c : cursor) (r : cursor) : bool * string =
   let kind = next c in
@@ -231,6 +330,15 @@ let judge id (c : cursor) (r : cursor) : bool * string =
     let (nt1, _) = judge_prune id l1 d r in
     let (nt2, _) = judge_prune (id + 1) l2 d r in
     (nt1 || nt2, Printf.sprintf "prune2.d%d" d)
+  | "fvn" ->
+    check_abnormal r "findVerticesNaive";
+    let (news, d) = read_vecs c in let (alphas, _) = read_vecs c in
+    judge_fv id (List.map (fun nv -> (nv, alphas)) news) d r "fvn"
+  | "fvr" ->
+    check_abnormal r "findVerticesNaive";
+    let (range, d) = read_vecs c in
+    let pairs = List.mapi (fun i nv -> (nv, List.filteri (fun j _ -> j <> i) range)) range in
+    judge_fv id pairs d r "fvr"
   | "saw" | "lpi" ->
     let site = if kind = "saw" then "sawtoothInterpolation" else "LPInterpolation" in
     let s_ = next_int c in let a_ = next_int c in
